@@ -3,3 +3,5 @@ import SpatialId.Model.Notation
 import SpatialId.Model.Zoom
 import SpatialId.Model.Shift
 import SpatialId.Model.Overlap
+import SpatialId.Model.Merge
+import SpatialId.Model.AltKey
